@@ -269,6 +269,12 @@ def main(run, replay=None):
         "cases = (mask, layout, unconditional transform, box-bounded, features outside the box, direction) states of Coupling.tla x coupling class x context, each "
         "checked for bit-identical identity features and for its Jacobian pattern; non-trivial = distinct such tuples"
     )
+    if replay and replay["case"].get("kind") == "assembly":
+        from vcore import assembly
+
+        for f in assembly.replay(run, replay["case"]):
+            run.violation({"kind": "assembly", "clause": f["clause"]}, "replayed: " + f["detail"], replay["case"])
+        return
     if replay:
         c = replay["case"]
         warnings.filterwarnings("ignore")
@@ -347,8 +353,14 @@ def main(run, replay=None):
             continue
         seen.add(key)
         run.violation({"cls": f["cls"], "clause": f["clause"], "layout": f["layout"], "dir": f["dir"], "uncond": f["uncond"]}, "%s mask=%s %s %s uncond=%s ctx=%s: %s" % (f["cls"], f["mask"], f["layout"], f["dir"], f["uncond"], f["ctx"], f["detail"]), {k: v for k, v in f.items() if k not in ("detail",)})
+    # system level: SimpleRealNVP as assembled by its constructor (spec/Assembly.tla)
+    from vcore import assembly
+
+    for f in assembly.run_assembly(run, "realnvp"):
+        run.violation({"kind": "assembly", "clause": f["clause"], "flow": "realnvp"}, "SimpleRealNVP %s: %s" % (f["cfg"], f["detail"]), dict({k: v for k, v in f.items() if k != "detail"}, kind="assembly"))
     run.exhaustive = thorough
     run.assumptions = [
+        "assembled flows (Assembly.tla): 2..4 features, 1..3 layers, with / without batch norm between layers; a Jacobian entry that is exactly zero at three generic points counts as 'does not depend'",
         "mask values from {-1, 0, 1/2, 1, 2} passed as list / tuple / numpy array / float, bool, long or byte tensor; piecewise layers with linear tails and on the unit box (tails=None); feature counts 2..MaxD, images of 1x2 pixels; constructor-rejected configurations are outside the quantifier",
         "dependency is measured by autograd Jacobians at one generic interior point per case; exact zero is taken as 'does not depend'",
     ]
